@@ -118,6 +118,8 @@ def strategy(tier):
                 "scale": draw(st.one_of(st.sampled_from([1.0, 0.5, 2.0, 1e-3]), st.floats(0.01, 100.0).map(lambda v: round(v, 4)))),
                 "direct": direct,
                 "origin": [draw(st.sampled_from([0.0, 1.0, -2.5, 0.125])) for _ in range(3)] if direct else None,
+                # an earlier file written from the same DomainDefinition object with another scale and origin
+                "prewrite": draw(st.sampled_from([False, False, True])),
                 "overwrite": draw(st.booleans()), "iters": draw(st.integers(1, 5)), "subdir": draw(subdir),
                 "fname": draw(st.sampled_from(["out.vti", "out", "result_3.vti", "density"]))}
 
@@ -260,6 +262,17 @@ def _check_vti(case, pym, tmp, labels, bad):
     base = saveto[:-4] if saveto.endswith(".vti") else saveto
     data = [[_vti_data(a, nel if a["kind"] == "elem" else nn, it) for a in specs] for it in range(iters)]
     sigs = [pym.Signal(a["tag"]) for a in specs]
+    if case.get("prewrite"):
+        # call history on the domain object: it already wrote a file, with a different scale and origin
+        import tempfile
+        with tempfile.TemporaryDirectory(prefix="c20_pre_") as tmp2:
+            try:
+                dom.write_to_vti({"pre": np.zeros(nel)}, filename=os.path.join(tmp2, "pre.vti"), scale=7.0 * scale + 1.0,
+                                 origin=(1.0, 2.0, 3.0))
+            except Exception as e:
+                bad(f"raises:vti:{type(e).__name__}:prewrite", f"{e!r}"[:500])
+                return
+        labels.append("domain_wrote_another_file_before")
     # ---- write
     try:
         if direct:
